@@ -112,6 +112,7 @@ struct Exec {
 		T.ctor_default_inits = Cfg::default_init;
 		T.always_equal  = Cfg::always_equal;
 		T.tracked_is_triv = std::is_same_v<typename Cfg::elem, Triv>;
+		T.assign_throws   = std::is_same_v<typename Cfg::elem, TrivA>;
 		T.pocca         = Cfg::pocca;
 		T.pocma         = Cfg::pocma;
 		T.pocs          = Cfg::pocs;
